@@ -363,6 +363,40 @@ class RealSession(object):
         return left
 
 
+def main_thread_sleeping(pid):
+    """is the main thread of the process in interruptible sleep (three samples, 20 ms apart)?"""
+    for _ in range(3):
+        try:
+            with open('/proc/%d/task/%d/stat' % (pid, pid)) as f:
+                st = f.read()
+        except (IOError, OSError):
+            return True
+        if st[st.rindex(')') + 2:].split()[0] != 'S':
+            return False
+        time.sleep(0.02)
+    return True
+
+
+def thread_diagnostics(pid):
+    """signal masks / pending sets and wait channels of every thread of a process that does not exit"""
+    out = {}
+    try:
+        for tid in sorted(os.listdir('/proc/%d/task' % pid), key=int):
+            d = {}
+            for line in open('/proc/%d/task/%s/status' % (pid, tid)):
+                k = line.split(':')[0]
+                if k in ('State', 'SigPnd', 'ShdPnd', 'SigBlk', 'SigIgn', 'SigCgt'):
+                    d[k] = line.split(':', 1)[1].strip()
+            try:
+                d['wchan'] = open('/proc/%d/task/%s/wchan' % (pid, tid)).read()
+            except (IOError, OSError):
+                pass
+            out[tid] = d
+    except (IOError, OSError) as e:
+        out['error'] = repr(e)
+    return out
+
+
 def wait_until(pred, timeout, step=0.02):
     t0 = time.time()
     while time.time() - t0 < timeout:
